@@ -65,7 +65,7 @@ theorem find_put_list (l : List Obj) (o : Obj) (k : Key) :
       · subst hk; simp [hx]
       · have : ¬ x.key = k := fun e => hk (e ▸ hx)
         have h2 : ¬ o.key = k := fun e => hk e.symm
-        simp only [hx, if_true, h2, decide_false, this, hk, if_false] at ih ⊢
+        simp only [hx, if_true, h2, decide_false, hk, if_false] at ih ⊢
         exact ih
     · simp only [hx, if_false]
       by_cases hxk : x.key = k
@@ -87,14 +87,14 @@ theorem find_erase_list (l : List Obj) (k0 k : Key) :
   | cons x xs ih =>
     by_cases hx : x.key = k0
     · have e : (x :: xs).filter (fun o => o.key ≠ k0) = xs.filter (fun o => o.key ≠ k0) := by
-        simp [List.filter_cons, hx]
+        simp [hx]
       rw [e, ih]
       by_cases hk : k = k0
       · simp [hk]
       · have : ¬ x.key = k := fun e => hk (e ▸ hx)
         simp [hk, this]
     · have e : (x :: xs).filter (fun o => o.key ≠ k0) = x :: xs.filter (fun o => o.key ≠ k0) := by
-        simp [List.filter_cons, hx]
+        simp [hx]
       rw [e]
       simp only [List.find?_cons]
       by_cases hxk : x.key = k
